@@ -18,7 +18,9 @@ theorem finish_id (t : Task) (r : Resp) : SameId t (finish t r).1 := ⟨rfl, rfl
 theorem afterLoop_id (t : Task) (r : Resp) : SameId t (afterLoop t r).1 := by
   unfold afterLoop; split
   · exact finish_id t r
-  · exact ⟨rfl, rfl, rfl, rfl⟩
+  · split
+    · exact ⟨rfl, rfl, rfl, rfl⟩
+    · exact ⟨rfl, rfl, rfl, rfl⟩
 
 theorem atAwait_id (val : Nat) (t : Task) (plan : Plan) : SameId t (atAwait val t plan).1 := by
   unfold atAwait
